@@ -287,10 +287,11 @@ func shrink(p Prop, driver string, ops []string, f *failure, budget int) ([]stri
 	}
 	cur, curF := ops, f
 	n := 2
-	for len(cur) >= 2 && budget > 0 {
+	deadline := time.Now().Add(45 * time.Second) // on a broken tree every attempt may cost a timeout
+	for len(cur) >= 2 && budget > 0 && time.Now().Before(deadline) {
 		chunk := (len(cur) + n - 1) / n
 		reduced := false
-		for start := 0; start < len(cur) && budget > 0; start += chunk {
+		for start := 0; start < len(cur) && budget > 0 && time.Now().Before(deadline); start += chunk {
 			end := start + chunk
 			if end > len(cur) {
 				end = len(cur)
